@@ -603,6 +603,8 @@ func c36PrecedenceClass(res *c36Result, want string) string {
 		return "cached-net-hides-clientid"
 	case (c == "node" || c == "suffrage") && want == "clientid":
 		return "cached-node-or-suffrage-hides-clientid"
+	case c == want:
+		return "cached-" + c + "-limiter-differs-from-rule"
 	default:
 		return "cached-" + c + "-hides-" + want
 	}
